@@ -237,13 +237,14 @@ class World(object):
     # ------------------------------------------------------------------ observation
     def observe(self):
         box = self.box
-        t1 = box.tree()
+        t1 = box.share_tree()      # everything under shares/ (incoming/ included); keys relative to shares/
         ss = box.ss
+        srel = lambda path: os.path.relpath(path, box.sharedir)  # noqa
         for i in range(len(self.sis)):
             for sh in self.shs:
                 key = (i, sh)
-                inc = box.rel(box.incoming_path(self.sis[i], sh))
-                fin = box.rel(box.final_path(self.sis[i], sh))
+                inc = srel(box.incoming_path(self.sis[i], sh))
+                fin = srel(box.final_path(self.sis[i], sh))
                 in_inc, in_fin = t1.get(inc) is not None, t1.get(fin) is not None
                 ent = self.m.get(key)
                 if ent is None:
@@ -336,7 +337,7 @@ class World(object):
                              % (alloc, live, SIZE, [(self.nm(k), c) for k, c in blamed], sorted(box.rel(p) for p in ss._bucket_writers), self.show()))
             elif alloc < SIZE * live:
                 self.note("reservation-smaller-than-in-progress")
-        t2 = box.tree()
+        t2 = box.share_tree()
         if t2 != t1:
             diff = sorted(k for k in set(t1) | set(t2) if t1.get(k, 0) != t2.get(k, 0))
             self.bad("read-changed-disk", "get_buckets/read changed the storage directory: %r" % diff)
@@ -346,10 +347,7 @@ class World(object):
     def canon(self):
         box = self.box
         files = []
-        prefix = box.rel(box.sharedir)
         for k, v in sorted(self._tree.items()):
-            if not k.startswith(prefix):
-                continue
             if v is not None and len(v) >= 12:
                 p = L.parse_immutable(v)
                 v = (v[:8], p["nleases"], p["data"], tuple(r[:-4] for r in p["leases"]))
@@ -435,7 +433,7 @@ def roots_for(tier, seed):
     inter2 = {"name": "4-shares-other-prefix-partial-idle", "sis": "diff-prefix", "nsi": 2, "nsh": 2, "writes": "small", "tick": True, "seed": seed}
     full = {"name": "4-shares-full-writes", "sis": "same-prefix", "nsi": 2, "nsh": 2, "writes": "full", "tick": False, "seed": seed}
     if tier == "quick":
-        return [(one, 40), (inter, 4), (full, 3)]
+        return [(one, 40), (inter, 4), (full, 2)]
     return [(one, 40), (inter, 6), (inter2, 6), (full, 4)]
 
 
